@@ -326,8 +326,14 @@ def got_bonds(arr):
 # --------------------------------------------------------------------------
 # writing / reading routes
 # --------------------------------------------------------------------------
-ROUTES = ("cif_ser", "cif_io", "bcif", "bcif_c6", "bcif_c3")
 ROUTE_TOL = {"bcif_c6": 1e-6, "bcif_c3": 1e-3}
+
+
+def routes_for(case):
+    """a generated case compresses with one tolerance; hand-written cases without the key use both"""
+    tol = case.get("compress_tol")
+    comp = [r for r, t in ROUTE_TOL.items() if tol is None or t == tol]
+    return ["cif_ser", "cif_io", "bcif"] + comp
 
 
 def fixed_point_safe(values, tol):
@@ -841,6 +847,8 @@ def st_structure(tier, models=None, small=False, allow_bonds=True):
             "write_intra": draw(st.integers(0, 5)) > 0,
             # route struct_conn matching through the dictionary implementation used for large files
             "dict_matching": draw(st.integers(0, 3)) == 0,
+            # float_tolerance of the compress()ed BinaryCIF route
+            "compress_tol": draw(st.sampled_from([1e-6, 1e-3])),
         }
         if case["coord_mode"] != "pdb":
             # explicit awkward values (denormal, 1e30, -0.0 ...) that shrink as values
@@ -976,7 +984,7 @@ def _roundtrip_routes(o, case, fl, w, req, m, has_bonds, exp_bonds, decoded):
                  "bcif": write_file(arr, "bcif", case["write_intra"], extra_names)}
         from biotite.structure.io import pdbx
 
-        for route in ROUTES:
+        for route in routes_for(case):
             tol = ROUTE_TOL.get(route)
             if tol is not None and not float_columns_safe(arr, tol):
                 o.label("compress_skipped_fixed_point_range_c05")
@@ -1322,7 +1330,7 @@ SUBS = [
         "roundtrip",
         _st_roundtrip,
         run_roundtrip,
-        quick=1600,
+        quick=1200,
         thorough=60000,
         rule=">= 2 residues and (>= 1 inter-residue bond or >= 2 models or a quote/prime in a name)",
         clauses="same atoms/order, annotations, bit-identical coordinates (tolerance after compress), optional and "
@@ -1332,7 +1340,7 @@ SUBS = [
         "models",
         _st_models,
         run_models,
-        quick=640,
+        quick=480,
         thorough=20000,
         rule="stack with >= 2 models",
         clauses="model=k selects exactly model k, negative k counts from the end, 0 and non-existent models raise",
@@ -1341,7 +1349,7 @@ SUBS = [
         "altloc",
         st_altloc,
         run_altloc,
-        quick=800,
+        quick=640,
         thorough=25000,
         rule=">= 1 residue with two different letter alt-loc ids",
         clauses="altloc first / occupancy / all select exactly the rows of the reference filter",
